@@ -594,6 +594,7 @@ impl<'a> ExpandedSelection<'a> {
             if fields.peek().is_none() && !on_variants.is_empty() {
                 let item = quote! {
                     #response_derives
+                    #[serde(crate = #serde_path)]
                     #[serde(tag = "__typename")]
                     pub enum #struct_name {
                         #(#on_variants),*
@@ -610,6 +611,7 @@ impl<'a> ExpandedSelection<'a> {
 
                 let on_enum = quote!(
                     #response_derives
+                    #[serde(crate = #serde_path)]
                     #[serde(tag = "__typename")]
                     pub enum #enum_name {
                         #(#on_variants,)*
